@@ -12,24 +12,38 @@ namespace GuppyVerif.EmuConfig
 open Spec
 
 theorem WF_initial (n : Nat) : WF (initial n) := by
-  intro c hc; simp [initial] at hc; subst hc; simp [initial]
+  intro c hc; simp [initial] at hc; subst hc; simp [initial, defaultInst]
 
 theorem LogOK_initial (n : Nat) : LogOK (initial n) := by
   intro e he; simp [initial] at he
 
-/-- **C28 (immutability)**: take any history from a fresh instance, stop anywhere (`s₁`), continue
-    with any further history (`s₂`): every instance that existed at `s₁` would still run with
-    exactly the same arguments. -/
+/-- **C28 (immutability)**: take any history from a fresh instance and builder, stop anywhere
+    (`s₁`), continue with any further history (`s₂`): every instance that existed at `s₁` would
+    still run with exactly the same arguments on the same `SeleneInstance` (same build arguments). -/
 theorem derive_preserves_earlier (n : Nat) (ops₁ ops₂ : List Op) (s₁ s₂ : State)
     (h₁ : runOps true (initial n) ops₁ = some s₁) (h₂ : runOps true s₁ ops₂ = some s₂)
     (j : Nat) (hj : j < s₁.insts.length) :
-    view s₂ j = view s₁ j ∧ (view s₁ j).isSome = true := by
-  obtain ⟨hw₁, _, _⟩ := runOps_fixed ops₁ (initial n) s₁ (WF_initial n) h₁
-  obtain ⟨_, _, hv⟩ := runOps_fixed ops₂ s₁ s₂ hw₁ h₂
-  refine ⟨hv j hj, ?_⟩
-  unfold view
-  rw [List.getElem?_eq_getElem hj]
-  exact argsOf_isSome _ _ (hw₁ _ (List.getElem_mem hj))
+    view s₂ j = view s₁ j ∧ originArgs s₂ j = originArgs s₁ j ∧ (view s₁ j).isSome = true := by
+  obtain ⟨hw₁, _⟩ := runOps_fixed ops₁ (initial n) s₁ (WF_initial n) h₁
+  obtain ⟨_, e⟩ := runOps_fixed ops₂ s₁ s₂ hw₁ h₂
+  exact ⟨view_stable s₁ s₂ hw₁ e j hj, originArgs_stable s₁ s₂ hw₁ e j hj, view_isSome s₁ hw₁ j hj⟩
+
+/-- **C28 (builder immutability)**: in the same setting every *builder* that existed at `s₁` would
+    still pass exactly the same arguments to `selene_sim.build`, and (previous theorem) every
+    instance built from it is unchanged — whatever was derived from it, built or run afterwards. -/
+theorem builder_derive_preserves_earlier (n : Nat) (ops₁ ops₂ : List Op) (s₁ s₂ : State)
+    (h₁ : runOps true (initial n) ops₁ = some s₁) (h₂ : runOps true s₁ ops₂ = some s₂)
+    (j : Nat) (hj : j < s₁.builders.length) :
+    bview s₂ j = bview s₁ j ∧ (bview s₁ j).isSome = true ∧
+    (∀ e ∈ s₁.blog, e ∈ s₂.blog) ∧
+    (∀ i, i < s₁.insts.length → view s₂ i = view s₁ i ∧ originArgs s₂ i = originArgs s₁ i) := by
+  obtain ⟨hw₁, _⟩ := runOps_fixed ops₁ (initial n) s₁ (WF_initial n) h₁
+  obtain ⟨_, e⟩ := runOps_fixed ops₂ s₁ s₂ hw₁ h₂
+  refine ⟨bview_stable s₁ s₂ e j hj, ?_, ?_, fun i hi =>
+    ⟨view_stable s₁ s₂ hw₁ e i hi, originArgs_stable s₁ s₂ hw₁ e i hi⟩⟩
+  · simp [bview, List.getElem?_eq_getElem hj]
+  · obtain ⟨x, hx⟩ := e.blog
+    intro b hb; rw [hx]; exact List.mem_append_left _ hb
 
 /-- **C28 (reproducibility)**: in any history, all runs of the same instance — whatever was
     derived or run in between — pass identical arguments, equal to what the instance shows at
@@ -53,37 +67,41 @@ theorem run_reproducible (n : Nat) (ops : List Op) (s : State)
     behaviour of every instance is the fold of its derivation path from the base instance. -/
 theorem derive_is_pure (s s' : State) (i : Nat) (d : Deriv) (hw : WF s)
     (hs : step true s (.derive i d) = some s') :
-    view s' s.insts.length = (view s i).bind fun a => applyD (fun k => s.heap[k]?) a d := by
-  simp only [step] at hs
-  cases hi : s.insts[i]? with
-  | none => simp [hi] at hs
-  | some c =>
-    have hc : c.sim < s.heap.length := hw c (List.mem_of_getElem? hi)
-    simp only [hi] at hs
-    cases hd : derive true s.heap c d with
-    | none => simp [hd] at hs
-    | some r =>
-      obtain ⟨h', c'⟩ := r
-      simp only [hd, Option.some.injEq] at hs
-      subst hs
-      simp only [view, hi, List.getElem?_concat_length]
-      cases d <;> simp only [derive] at hd
-      case seed v =>
-        rw [List.getElem?_eq_getElem hc] at hd
-        simp only [↓reduceIte, Option.some.injEq, Prod.mk.injEq] at hd
-        obtain ⟨rfl, rfl⟩ := hd
-        simp [argsOf, List.getElem?_eq_getElem hc, applyD]
-      case simulator sid =>
-        split at hd
-        · rename_i hsid
-          simp only [Option.some.injEq, Prod.mk.injEq] at hd
-          obtain ⟨rfl, rfl⟩ := hd
-          simp [argsOf, List.getElem?_eq_getElem hc, List.getElem?_eq_getElem hsid, applyD]
-        · cases hd
-      all_goals
-        simp only [Option.some.injEq, Prod.mk.injEq] at hd
-        obtain ⟨rfl, rfl⟩ := hd
-        simp [argsOf, List.getElem?_eq_getElem hc, applyD]
+    view s' s.insts.length = ((view s i).bind fun a => applyD (fun k => s.heap[k]?) a d) ∧
+    originArgs s' s.insts.length = originArgs s i :=
+  ⟨(derive_step_pure s s' i d hw hs).1, (derive_step_pure s s' i d hw hs).2.1⟩
+
+/-- **C28 (builder path, then instance path)**: start anywhere in any history (`s`), follow a builder
+    derivation path `bp` from builder `b`, `build(pkg, n)`, then follow an instance derivation path
+    `ip` from the built instance — with arbitrary other operations on any builder or instance before
+    every step (`junk`).  The final instance runs with `foldD ip (defaults n)` on a `SeleneInstance`
+    built with `foldl applyB bp (what b showed)`: a pure function of the two paths. -/
+theorem build_then_derive_pure (n₀ : Nat) (ops : List Op) (s s₁ s₂ s₃ sf : State) (b b' n j : Nat)
+    (B : BuildArgs) (bp : List (List Op × BDeriv)) (junk : List Op) (ip : List (List Op × Deriv))
+    (h₀ : runOps true (initial n₀) ops = some s) (hb : bview s b = some B)
+    (h₁ : chainB s b bp = some (s₁, b')) (h₂ : runOps true s₁ junk = some s₂)
+    (h₃ : step true s₂ (.build b' n) = some s₃) (h₄ : chainD s₃ s₂.insts.length ip = some (sf, j)) :
+    (∃ r, view sf j = some r ∧ foldD (fun k => sf.heap[k]?) (defaultArgs n) (ip.map (·.2)) = some r) ∧
+    originArgs sf j = some (some ((bp.map (·.2)).foldl applyB B)) := by
+  obtain ⟨hw, _⟩ := runOps_fixed ops (initial n₀) s (WF_initial n₀) h₀
+  have hbl : b < s.builders.length := by
+    unfold bview at hb
+    cases hq : s.builders[b]? with
+    | none => simp [hq] at hb
+    | some c => exact (List.getElem?_eq_some_iff.mp hq).1
+  obtain ⟨hw₁, _, hb'l, hbv⟩ := chainB_pure bp s s₁ b b' B hw hbl hb h₁
+  obtain ⟨hw₂, e₂⟩ := runOps_fixed junk s₁ s₂ hw₁ h₂
+  obtain ⟨hw₃, e₃⟩ := step_fixed s₂ s₃ _ hw₂ h₃
+  obtain ⟨q1, q2, _⟩ := build_step_pure s₂ s₃ b' n h₃
+  have hnew : s₂.insts.length < s₃.insts.length := by
+    have := h₃
+    simp only [step] at this
+    cases hq : s₂.builders[b']? with
+    | none => simp [hq] at this
+    | some c => simp only [hq, Option.some.injEq] at this; subst this; simp
+  obtain ⟨_, _, _, hr, ho⟩ := chainD_pure ip s₃ sf s₂.insts.length j (defaultArgs n) hw₃ hnew q1 h₄
+  refine ⟨hr, ?_⟩
+  rw [ho, q2, bview_stable s₁ s₂ e₂ b' hb'l, hbv]; rfl
 
 /-- **D10**: the original `with_seed` (writes `random_seed` of the shared simulator object)
     violates immutability — `a = base.with_seed(1); b = a.with_seed(2)` changes what `a` runs with. -/
@@ -96,12 +114,23 @@ theorem d10_original_code_violates :
 /-! Non-vacuity: a history with sibling derivations, a user simulator shared by two instances,
     reseeding, and repeated runs of an early instance. -/
 def exOps : List Op :=
-  [.derive 0 (.seed (some 1)), .run 1, .derive 1 (.seed (some 2)), .newSim (.custom 7) (some 5),
+  [.bderive 0 (.buildArg 3 4), .derive 0 (.seed (some 1)), .run 1, .derive 1 (.seed (some 2)), .newSim (.custom 7) (some 5),
    .derive 1 (.simulator 3), .derive 3 (.seed none), .derive 1 .stabilizer, .run 1, .derive 2 (.shots 10),
    .run 1, .run 3, .run 4]
 
 example : ((runOps true (initial 2) exOps).map fun s => s.log.map fun e => (e.1, e.2.simKind, e.2.simSeed, e.2.seed)) =
     some [(1, .quest, some 1, some 1), (1, .quest, some 1, some 1), (1, .quest, some 1, some 1),
           (3, .custom 7, some 5, some 1), (4, .custom 7, none, none)] := by decide
+
+/-- a builder path, a build, an instance path, with unrelated operations in between -/
+def exChain : Option (Option (Option BuildArgs) × Option (Nat × Option Nat × Option Nat × Nat)) :=
+  (chainB (initial 1) 0 [([], .buildArg 1 2), ([.derive 0 (.seed (some 9))], .buildArg 1 3),
+      ([.build 1 4], .name (some 5))]).bind fun p =>
+    (step true p.1 (.build p.2 2)).bind fun s₃ =>
+      (chainD s₃ p.1.insts.length [([.run 0], .shots 7), ([.bderive p.2 (.verbose true)], .seed (some 3))]).map
+        fun q => (originArgs q.1 q.2, (view q.1 q.2).map fun a => (a.shots, a.seed, a.simSeed, a.nQubits))
+
+example : exChain =
+    some (some (some ⟨some 5, none, false, [(1, 3)]⟩), some (7, some 3, some 3, 2)) := by rfl
 
 end GuppyVerif.EmuConfig
